@@ -161,7 +161,7 @@ section Decreasing
 variable {V : Type} (sem : Sem V)
 
 theorem muR_exec_other {P : Partition} (s : GState V) (r : Nat) (p : Part) (r' : Nat) (h : r' ≠ r) :
-    muR P (execG sem s r p) r' = muR P s r' := by
+    muR P (execG sem P s r p) r' = muR P s r' := by
   simp [muR, execG, h]
 
 theorem muR_deliver_other {P : Partition} (s : GState V) (r : Nat) (S : List Recv) (r' : Nat)
@@ -170,7 +170,7 @@ theorem muR_deliver_other {P : Partition} (s : GState V) (r : Nat) (S : List Rec
 
 theorem muR_exec_self {P : Partition} (s : GState V) (r : Nat) (p : Part)
     (hp : p ∈ P.parts r) (hne : p.pid ∉ (s.rk r).executed) :
-    muR P (execG sem s r p) r < muR P s r := by
+    muR P (execG sem P s r p) r < muR P s r := by
   unfold muR
   simp only [execG, execR, if_true]
   have h1 := filter_length_lt (P.parts r)
@@ -234,15 +234,12 @@ theorem checkWF_sound_lemma (P : Partition) (h : checkWF P = true) : WF P :=
 theorem checkWFexec_sound_lemma (P : Partition) (h : checkWFexec P = true) : WFexec P :=
   ⟨computeLvl P, of_decide_eq_true h⟩
 
-/-- overall outputs are not read by any part (they would be released with the inputs) -/
-def OutputsNotRead (P : Partition) : Prop := ∀ r, r < P.length → Cl.overallNotRead P r
-
-/-- the full contract, plus "no part reads an overall output", implies what the executor needs -/
-theorem wfexec_of_wf {P : Partition} (h : WF P) (hnr : OutputsNotRead P) : WFexec P := by
+/-- the full contract of C09 implies what the executor needs -/
+theorem wfexec_of_wf {P : Partition} (h : WF P) : WFexec P := by
   obtain ⟨lvl, round, hwf⟩ := h
   refine ⟨lvl, ?_⟩
   intro r hr
   obtain ⟨h1, h2, h3, _, h5, h6, h7, _⟩ := hwf r hr
-  exact ⟨h1, h2, h3, h5, h6, h7, hnr r hr⟩
+  exact ⟨h1, h2, h3, h5, h6, h7⟩
 
 end Pt.Dist
